@@ -379,7 +379,8 @@ def main(ck):
             if sat > tprim and not (-w > 0 and -w <= dmin + tprim):
               hard('box-box normal does not separate the boxes: gap along n %.17g, dist %.17g' % (-w, dmin),
                    'normal:box-box')
-      elif not deep and not is_ccd and not f5:
+      elif (not deep or (dtrue is not None and kind == 'exact' and pair[0] in ('plane', 'sphere'))) and not is_ccd and not f5:
+        # (plane-X and sphere-X depths are unique at any depth: sphere centre inside a box / cylinder is asserted too)
         err = abs(w + dmin)
         if not err <= tdist:
           hard('normal/dist certificate: overlap width along the reported normal %.17g but dist %.17g (tol %.3g)' % (
@@ -535,7 +536,7 @@ def main(ck):
                         dclass=info['dclass'], okind=info['okind'], dkind=info['dkind'], sizes=[info['sa'], info['sb']]),
             labels=labels)
 
-  ck.run_hypothesis(test, scene_strategy(), ck.budget(350, 40000), name='contacts', shrink=False)
+  ck.run_hypothesis(test, scene_strategy(), ck.budget(350, 12000), name='contacts', shrink=False)
   ck.extra['tolerances'] = dict(K_FRAME=K_FRAME, K_PRIM=K_PRIM, K_CCD=K_CCD, BOXBOX_FUDGE=BOXBOX_FUDGE, DEEP=DEEP)
   ck.extra['worst_observed'] = {k: float(v) for k, v in calib.items()}
   ck.extra['boxbox'] = stats
